@@ -76,7 +76,9 @@ class Canon:
             elif isinstance(n, (ast.Global, ast.Nonlocal)):
                 for nm in n.names:
                     bump(nm, 2)
-        self.single = {k: v for k, v in values.items() if counts.get(k) == 1}
+        # a local bound to a fresh mutable object (a container display, a container/future constructor) names that
+        # *object*: it is kept as a name, not replaced by the expression that created it
+        self.single = {k: v for k, v in values.items() if counts.get(k) == 1 and not _fresh_object(v)}
 
     # -- binding context of a Name occurrence in the original tree
     def _binder(self, name_node):
@@ -121,6 +123,19 @@ class Canon:
 
     def func_text(self, call):
         return self.text(call.func)
+
+
+_FRESH_CTORS = {"list", "dict", "set", "OrderedDict", "defaultdict", "deque", "Future", "bytearray", "object"}
+
+
+def _fresh_object(v):
+    if isinstance(v, (ast.List, ast.Dict, ast.Set, ast.ListComp, ast.DictComp, ast.SetComp, ast.GeneratorExp)):
+        return True
+    if isinstance(v, ast.Call):
+        f = v.func
+        name = f.id if isinstance(f, ast.Name) else (f.attr if isinstance(f, ast.Attribute) else None)
+        return name in _FRESH_CTORS
+    return False
 
 
 def _rebuild(node, tr):
